@@ -116,11 +116,14 @@ class Ob(object):
 
 
 class Loop(object):
-    def __init__(self, invariant="True", decreases=None, modifies=None, ghost_pre=None, variant_lower=None):
+    def __init__(self, invariant="True", decreases=None, modifies=None, ghost_pre=None, variant_lower=None, after=None):
         self.invariant = invariant
         self.decreases = decreases
         self.modifies = modifies  # extra heap locations havocked: ["Class.attr", ...]
         self.ghost_pre = ghost_pre
+        # sidecar assertions at the normal exit of the loop: {name: spec}; may use pre(...) for the loop-entry state.
+        # They are obligations (never assumed): what the loop as a whole has established for the code after it.
+        self.after = after or {}
 
 
 class Contract(object):
@@ -1197,8 +1200,7 @@ class Executor(object):
         """forall_ref('Class', lambda r: body)"""
         cls = e.args[0].value
         lam = e.args[1]
-        self.fresh_n += 1
-        r = z3.Const("q!%d" % self.fresh_n, Ref)
+        r = z3.Const(self._bound_name("q"), Ref)
         st2 = st.copy()
         st2.env[lam.args.args[0].arg] = SV("ref", r, cls=cls, x="nonnull")
         if self.old_state is not None:
@@ -1210,8 +1212,7 @@ class Executor(object):
 
     def sp_forall_int(self, e, st):
         lam = e.args[0]
-        self.fresh_n += 1
-        r = z3.Int("qi!%d" % self.fresh_n)
+        r = z3.Int(self._bound_name("qi"))
         st2 = st.copy()
         st2.env[lam.args.args[0].arg] = SV("int", r)
         if self.old_state is not None:
@@ -1220,6 +1221,18 @@ class Executor(object):
             ps.env[lam.args.args[0].arg] = SV("int", r)
         body = self.truthy(self.ev(lam.body, st2))
         return SV("bool", z3.ForAll([r], body))
+
+    def sp_exists_int(self, e, st):
+        lam = e.args[0]
+        r = z3.Int(self._bound_name("qe"))
+        st2 = st.copy()
+        st2.env[lam.args.args[0].arg] = SV("int", r)
+        if self.old_state is not None:
+            self.old_state.env[lam.args.args[0].arg] = SV("int", r)
+        for ps in getattr(self, "pre_states", []):
+            ps.env[lam.args.args[0].arg] = SV("int", r)
+        body = self.truthy(self.ev(lam.body, st2))
+        return SV("bool", z3.Exists([r], body))
 
     # ---- calls
     def call(self, st, f, args, kw, ln):
@@ -1263,11 +1276,38 @@ class Executor(object):
         self.fresh_n += 1
         obj = SV("ref", z3.Const("new_%s!%d" % (cls, self.fresh_n), Ref), cls=cls, x="nonnull")
         st.assume(obj.t != NONE)
-        # freshness: distinct from every reference bound in the environment
+        # freshness: distinct from every reference bound in the environment ...
         for v in self._all_refs(st):
             st.assume(obj.t != v)
+        # ... and referenced from nowhere in the heap as it is now: no reference field, list element, dictionary
+        # key or value of any object holds it (so nothing read from the heap later, unless stored after this point,
+        # can be the new object)
+        self.assume_unreferenced(st, obj.t)
         self.apply_contract(st, c, obj, args, kw, ln)
         return obj
+
+    def assume_unreferenced(self, st, o):
+        r = z3.Const("fr!r%d" % self.fresh_n, Ref)
+        for key, f in self.schema.items():
+            if key.endswith("$none"):
+                continue
+            kind = f.kind
+            if kind == "ref":
+                arr, _ = self.heap_arrays(st, key, f)
+                st.assume(z3.ForAll([r], z3.Select(arr, r) != o))
+            elif kind.startswith("map:"):
+                _, ks, vs = kind.split(":")[:3]
+                arr, dom = self.heap_arrays(st, key, f)
+                if ks == "ref":
+                    st.assume(z3.ForAll([r], z3.Not(z3.Select(z3.Select(dom, r), o))))
+                if vs == "ref":
+                    k = z3.Const("fr!k%d" % self.fresh_n, sort_of(ks, self.bits))
+                    st.assume(z3.ForAll([r, k], z3.Implies(z3.Select(z3.Select(dom, r), k), z3.Select(z3.Select(arr, r), k) != o)))
+            else:
+                self.assume_unreferenced_other(st, key, f, o, r)
+
+    def assume_unreferenced_other(self, st, key, f, o, r):
+        return
 
     def _all_refs(self, st):
         out = []
@@ -1321,7 +1361,11 @@ class Executor(object):
             if k not in params and k not in [x.arg for x in a.kwonlyargs]:
                 if a.kwarg is None:
                     raise Unsupported("unexpected keyword %s for %s" % (k, fn.name))
-                raise Unsupported("**kwargs parameter")
+                if not getattr(self, "lenient", False):
+                    raise Unsupported("**kwargs parameter")
+                # collected by the callee's **kwargs dictionary, which the analysis treats as an abstracted value
+                env[a.kwarg.arg] = self.opaque("**%s" % a.kwarg.arg)
+                continue
             if k in env:
                 raise Unsupported("duplicate argument %s" % k)
             env[k] = v
@@ -1343,6 +1387,8 @@ class Executor(object):
                 env[p.arg] = self.ev(d, st)
         if a.vararg is not None:
             raise Unsupported("*args parameter")
+        if a.kwarg is not None and a.kwarg.arg not in env and getattr(self, "lenient", False):
+            env[a.kwarg.arg] = self.opaque("**%s" % a.kwarg.arg)
         return env
 
     def inline_call(self, st, ci, fn, selfv, args, kw, ln):
@@ -1535,6 +1581,17 @@ class Executor(object):
             st.assume(self.bits.wf(fv))
         st.heap[key] = (arr2, na2)
 
+    # Bound variables of spec quantifiers are numbered per top-level spec evaluation (not from the global counter):
+    # evaluating the same spec text in the same state twice gives the IDENTICAL z3 term, so "the invariant assumed at
+    # the loop head implies the same clause asserted at the loop exit" and similar steps are syntactic, not a matter of
+    # quantifier instantiation (which made verdicts depend on term ordering).
+    _spec_depth = 0
+    _bound_n = 0
+
+    def _bound_name(self, prefix):
+        self._bound_n += 1
+        return "%s!b%d" % (prefix, self._bound_n)
+
     def spec_eval(self, text, st, old, result):
         """evaluate a spec expression (string) to a z3 Bool"""
         if text is None or text == "True":
@@ -1542,18 +1599,26 @@ class Executor(object):
         node = ast.parse(text.strip(), mode="eval").body
         sp, os_, rs, g = self.spec, self.old_state, self.result_sv, self.guard
         self.spec, self.old_state, self.result_sv, self.guard = True, old, result, []
+        if self._spec_depth == 0:
+            self._bound_n = 0
+        self._spec_depth += 1
         try:
             return self.truthy(self.ev(node, st))
         finally:
+            self._spec_depth -= 1
             self.spec, self.old_state, self.result_sv, self.guard = sp, os_, rs, g
 
     def spec_value(self, text, st, old=None, result=None):
         node = ast.parse(text.strip(), mode="eval").body
         sp, os_, rs, g = self.spec, self.old_state, self.result_sv, self.guard
         self.spec, self.old_state, self.result_sv, self.guard = True, old, result, []
+        if self._spec_depth == 0:
+            self._bound_n = 0
+        self._spec_depth += 1
         try:
             return self.ev(node, st)
         finally:
+            self._spec_depth -= 1
             self.spec, self.old_state, self.result_sv, self.guard = sp, os_, rs, g
 
     # ---- strings (interned; case maps uninterpreted)
